@@ -163,6 +163,10 @@ fn translate_position(input: &[u8], index: usize) -> (usize, usize) {
 
     let column = std::str::from_utf8(&input[line_start..=index])
         .map(|s| s.chars().count() - 1)
+        .or_else(|_| {
+            // `index` is the first byte of a multi-byte character
+            std::str::from_utf8(&input[line_start..index]).map(|s| s.chars().count())
+        })
         .unwrap_or_else(|_| index - line_start);
     let column = column + column_offset;
 
